@@ -132,6 +132,12 @@ func TestC04(t *testing.T) {
 		}
 		return
 	}
+	regressCases(t, "C04", func() interface{} { return &ExecCase{} }, func(name string, c interface{}) {
+		if msg, _ := c04Oracle(c.(*ExecCase)); msg != "" {
+			violation(t, "C04", "regress", c, "regression case %s: %s", name, msg)
+		}
+		stats.R.Class("regression_case")
+	})
 	kfInf := known("KF-C04-inf")
 	kfThunk := known("KF-C04-thunk-nonnull")
 	_ = kfThunk // deferred failures in non-null positions are never generated (DESIGN §3.4: ambiguous order)
